@@ -69,7 +69,11 @@ class Pools:
         self.ts = uniq([[d, t[0], t[1]] for d in self.dates[:20] for t in crit_t[:5]] +
                        [[d, t[0], t[1]] for d in self.dates[20:] for t in crit_t[5:7]] +
                        [[rnd.randint(DATE_MIN, DATE_MAX), rnd.randint(0, 86399), rnd.randint(0, 999999)] for _ in range(n(16))])
-        self.od = uniq([[x[0], x[1], 0] for x in self.ts])
+        # range ends first: plan_for crosses the first entries of every pool exhaustively
+        self.ts = uniq([[DATE_MAX, 86399, 999999], [DATE_MIN, 0, 0], [DATE_MAX, 86399, 0], [DATE_MAX, 86399, 500000],
+                        [DATE_MAX, 86399, 499999], [DATE_MIN, 0, 1], [0, 0, 0], [-1, 86399, 999999]] + self.ts)
+        self.od = uniq([[DATE_MAX, 86399, 0], [DATE_MIN, 0, 0], [DATE_MAX, 86398, 0], [DATE_MIN, 1, 0], [0, 0, 0],
+                        [-1, 86399, 0], [DATE_MAX, 0, 0], [DATE_MAX - 1, 86399, 0]] + [[x[0], x[1], 0] for x in self.ts])
         self.ym = uniq([0, 1, -1, 11, 12, 13, -11, -12, -13, YM_MAX, -YM_MAX, YM_MAX - 1, -YM_MAX + 1, 119988, -119988,
                         119976, 119987, 24000, -24000, 1200, -1200, 2, -2, 6, 25]
                        + [rnd.randint(-YM_MAX, YM_MAX) for _ in range(n(6))] + [rnd.randint(-3000, 3000) for _ in range(n(6))])
@@ -183,6 +187,15 @@ def plan_for(ops, pools, cap=3000, rnd=None, heavy_cap=1200):
             seen = set()
             m = max(len(p) for p in ps)
             out = []
+            # exhaustive core: the first (boundary) entries of every pool x every float
+            core = [[]]
+            for t, p in zip(SIG[op], ps):
+                sel = p if t in ("f64", "unit", "bit") else p[:8]
+                core = [i + [x] for i in core for x in sel]
+                if len(core) > cap_:
+                    break
+            if len(core) <= cap_:
+                out += core
             for sh in range(3):
                 for k in range(m):
                     a = [p[(k + sh * j * 7) % len(p)] for j, p in enumerate(ps)]
